@@ -17,6 +17,7 @@ import (
 	"path/filepath"
 	"sort"
 	"strings"
+	"sync/atomic"
 
 	"github.com/dolthub/go-mysql-server/memory"
 	"github.com/dolthub/go-mysql-server/sql"
@@ -140,8 +141,34 @@ var acctSetup = []string{
 
 // env is one prepared engine with the session the statement under test runs on.
 type env struct {
-	e *core.Eng
-	s *core.Sess
+	e       *core.Eng
+	s       *core.Sess
+	newSess func() *core.Sess
+}
+
+// unwrapProvider is the database provider handed to memory sessions of the db-ro engine: the engine
+// (analyzer, catalog) sees memory.ReadOnlyDatabase, while the session's commit hook — which only
+// knows *memory.Database / *memory.HistoryDatabase and otherwise fails every statement, reads
+// included, with "unknown database type memory.ReadOnlyDatabase" (findings/C42.md) — gets the
+// wrapped database.
+type unwrapProvider struct{ sql.DatabaseProvider }
+
+func (p unwrapProvider) Database(ctx *sql.Context, name string) (sql.Database, error) {
+	db, err := p.DatabaseProvider.Database(ctx, name)
+	if ro, ok := db.(memory.ReadOnlyDatabase); ok {
+		return ro.HistoryDatabase, nil
+	}
+	return db, err
+}
+
+var connIDs uint32 = 1 << 24
+
+func sessWith(e *core.Eng, pro sql.DatabaseProvider) *core.Sess {
+	id := atomic.AddUint32(&connIDs, 1)
+	bs := sql.NewBaseSessionWithClientServer("verif", sql.Client{User: "root", Address: "localhost"}, id)
+	ms := memory.NewSession(bs, pro)
+	ms.SetCurrentDatabase(e.DB)
+	return &core.Sess{Eng: e, S: ms, ID: id, User: "root"}
 }
 
 // build prepares an engine for (mode, parameterisation). readOnly=false builds the writable twin.
@@ -156,6 +183,7 @@ func build(mode string, p *params, readOnly bool) (*env, error) {
 	}
 	other := memory.NewDatabase("other")
 	e := g9blib.NewEng(main, other)
+	newSess := e.NewSess
 	s := e.NewSess()
 	for _, q := range p.setupSQL() {
 		if r := s.Exec(q); r.Failed() {
@@ -167,7 +195,9 @@ func build(mode string, p *params, readOnly bool) (*env, error) {
 		// same database objects, d wrapped as a read-only database, fresh engine
 		e.Close()
 		e = g9blib.NewEng(memory.ReadOnlyDatabase{HistoryDatabase: hist}, other)
-		s = e.NewSess()
+		roEng := e
+		newSess = func() *core.Sess { return sessWith(roEng, unwrapProvider{roEng.Pro}) }
+		s = newSess()
 	}
 	for _, q := range acctSetup {
 		if r := s.Exec(q); r.Failed() {
@@ -175,7 +205,7 @@ func build(mode string, p *params, readOnly bool) (*env, error) {
 			return nil, fmt.Errorf("account setup failed: %s: %v", q, r.Err)
 		}
 	}
-	s = e.NewSess()
+	s = newSess()
 	if p.qualify {
 		if r := s.Exec("USE other"); r.Failed() {
 			e.Close()
@@ -188,7 +218,7 @@ func build(mode string, p *params, readOnly bool) (*env, error) {
 			return nil, fmt.Errorf("SET autocommit failed: %v", r.Err)
 		}
 	}
-	return &env{e: e, s: s}, nil
+	return &env{e: e, s: s, newSess: newSess}, nil
 }
 
 // enter switches the prepared engine/session into the mode (the twin gets the writable equivalent).
@@ -282,7 +312,7 @@ func observe(r *core.Run, mode string, t tmpl, p *params, caseNo int) *outcome {
 	}
 	defer ro.e.Close()
 
-	fpW0, fpR0 := g9blib.Fingerprint(w.e), g9blib.Fingerprint(ro.e)
+	fpW0, fpR0 := g9blib.FingerprintOn(w.newSess()), g9blib.FingerprintOn(ro.newSess())
 	if len(fpW0.Errs)+len(fpR0.Errs) > 0 {
 		o.Inconclusive = "fingerprint-failed-before: " + strings.Join(append(fpW0.Errs, fpR0.Errs...), "; ")
 		return o
@@ -335,7 +365,7 @@ func observe(r *core.Run, mode string, t tmpl, p *params, caseNo int) *outcome {
 		o.Inconclusive = "twin-panics: " + o.TwinErr
 		return o
 	}
-	fpW1, fpR1 := g9blib.Fingerprint(w.e), g9blib.Fingerprint(ro.e)
+	fpW1, fpR1 := g9blib.FingerprintOn(w.newSess()), g9blib.FingerprintOn(ro.newSess())
 	if len(fpW1.Errs)+len(fpR1.Errs) > 0 {
 		o.Inconclusive = "fingerprint-failed-after: " + strings.Join(append(fpW1.Errs, fpR1.Errs...), "; ")
 		return o
@@ -496,10 +526,10 @@ func main() {
 	})
 	if debug {
 		for _, o := range outs {
-			if o == nil || o.Param != 0 {
+			if o == nil {
 				continue
 			}
-			fmt.Fprintf(os.Stderr, "%-14s %-38s %-2s twinChanged=%-5v roChanged=%-5v twinErr=%q roErr=%q\n", o.Mode, o.Kind, o.Class, o.TwinChanged, o.RoChanged, core.Clip(o.TwinErr, 70), core.Clip(o.RoErr, 70))
+			fmt.Fprintf(os.Stderr, "p%d %-14s %-38s %-2s twinChanged=%-5v roChanged=%-5v twinErr=%q roErr=%q\n", o.Param, o.Mode, o.Kind, o.Class, o.TwinChanged, o.RoChanged, core.Clip(o.TwinErr, 70), core.Clip(o.RoErr, 70))
 		}
 	}
 	// samples: a few real cases
